@@ -1,5 +1,5 @@
 (* C18 -- Link-format writer reports every sink failure and writes nothing after it. *)
-From CoapV Require Import Base LinkFormat Suite16 proofs.P18.
+From CoapV Require Import Base LinkFormat Suite16 proofs.P18 Suite16 proofs.P18b.
 
 (* [fail] is an arbitrary function of the call index: failing once, persistently or intermittently.
    If call k is the first to fail: the result is an error, exactly k+1 calls were made, and the sink holds
@@ -22,6 +22,13 @@ Theorem C18_no_fault : forall d nl,
   write_doc (fun _ => false) true nl sink0 d = (false, mkSink (length (doc_chunks true nl d)) (doc_chunks true nl d)).
 Proof. exact no_fault. Qed.
 Print Assumptions C18_no_fault.
+
+(* the writer model passes the suite-180 oracle on EVERY input: every document the suite's reader produces, newline option
+   on or off, every fault position k, failing once (mode 0) or from k on (mode 1) *)
+Theorem C18_model_passes_oracle : forall s, match s with k :: mode :: r => rd_case160 r <> None | _ => False end ->
+  verdict180 s (run180 s) = true.
+Proof. exact model_passes_oracle180. Qed.
+Print Assumptions C18_model_passes_oracle.
 
 Example C18_example :
   let d := [([47; 97], [([107], APlain [118])]); ([47; 98], [])] in
